@@ -11,6 +11,7 @@ empty -> new(). (R04.4) each backend registers a peer at most once per path, wit
 handshake's identity. (R04.5) accept failure is reported with a non-blocking try_send(AcceptFailed); connect propagates.
 Does NOT decide that every well-formed peer is eventually admitted, nor uniqueness of generated UUIDs."""
 from ..sym import Sym, show, walk_expr, interval_of
+from ..facts import callee_name
 from ..common import trait_impls, short, coroutine_of, SOCKET_TYPES, rfc_compatible, strip_casts, len_base
 from .. import pathq
 from ..oblig import LenFacts, norm_base
@@ -283,17 +284,32 @@ def check_ready(f, rep):
                             cmd = True
             rep.check(cmd, "R04.1", "R04.1|ready|command-item", "READY accepted only when the first post-greeting item is Some(Ok(Command))", b.loc())
             # identity through PeerIdentity::try_from
+            # three equivalent shapes: get(..).map(conv).transpose()?.unwrap_or_default()  |  match get(..) { Some(x) => conv(x)?, None => default }
             ident = pathq.mentions_call(p.ret, lambda x: short(x[1]) in ("unwrap_or_default", "unwrap_or_else", "unwrap_or")) is not None
             tr_ok = pathq.ok_decided(p, lambda x: x[0] in ("call", "pure") and short(x[1]) == "transpose")
-            rep.check(ident and tr_ok, "R04.1", "R04.1|ready|identity-checked",
-                      "the admitted identity is the checked conversion of the Identity property or a default (transpose()? decided Ok: %s)" % tr_ok, b.loc())
+            conv_results = [ev.result for _, ev in pathq.calls(p, "try_into", "try_from")
+                            if ev.fn and ("PeerIdentity" in ev.name or any("PeerIdentity" in a for a in ev.fn.get("args", [])))]
+            def conv_call(x):
+                return x in conv_results
+            def id_prop(x):
+                return x[0] in ("call", "pure") and short(x[1]) == "get" and len(x[2]) == 2 and any(tables.const_str(y) == "Identity" for y in walk_expr(x[2][1]))
+            converted = pathq.mentions_call(p.ret, conv_call) is not None and pathq.ok_decided(p, conv_call)
+            val = p.ret[4][0] if p.ret[0] == "agg" and p.ret[4] else p.ret
+            defaulted = val[0] in ("call", "pure") and short(val[1]) in ("default", "new") and "PeerIdentity" in val[1] and \
+                pathq.option_decided(p, id_prop) == 0
+            rep.check((ident and tr_ok) or converted or defaulted, "R04.1", "R04.1|ready|identity-checked",
+                      "the admitted identity is the checked conversion of the Identity property or a default "
+                      "(transpose()? decided Ok: %s; conversion decided Ok: %s; default when absent: %s)" % (ident and tr_ok, converted, defaulted), b.loc())
         rep.floor("R04.1", "Ok exits of the READY exchange", n, 1)
         # the closure converting the Identity property goes through PeerIdentity's TryFrom
-        kids = [k for k in f.children(b) if k.kind == "Closure"]
         conv = False
-        for k in kids:
-            for bb, t, fn in k.calls():
-                if fn and fn["name"] in ("try_into", "try_from") and any("PeerIdentity" in a for a in fn.get("args", [])):
+        for k in pathq.scope(f, b):
+            if k.kind == "Closure":
+                for bb, t, fn in k.calls():
+                    if fn and fn["name"] in ("try_into", "try_from") and any("PeerIdentity" in a for a in fn.get("args", [])):
+                        conv = True
+            for bb, t, fn in k.fn_values():      # `.map(PeerIdentity::try_from)`: the conversion passed as a function item
+                if fn["name"] in ("try_into", "try_from") and ("PeerIdentity" in callee_name(fn) or any("PeerIdentity" in a for a in fn.get("args", []))):
                     conv = True
         rep.check(conv, "R04.1", "R04.1|ready|identity-conversion", "the Identity property is converted with PeerIdentity's checked TryFrom (length rule R04.3)", b.loc())
 
